@@ -414,6 +414,10 @@ def choose_configs(seed, count):
         }
         for hs in chosen
     ]
+    # two configurations whose local dates always differ
+    if len(configs) >= 3:
+        configs[1]["tz"] = "LINT-14"
+        configs[2]["tz"] = "BIT12"
     return configs, len(orders)
 
 
